@@ -584,8 +584,12 @@ def one(names, what, f=None):
 def locals_assigned_from_call(f, rx):
     """names of locals initialised by, or assigned from, a call whose resolved callee matches rx."""
     out = set()
-    def is_call(i):
+    def is_call(i, depth=0):
         e = f.x(f.skip(i))
+        if e is not None and e['k'] == 'construct' and e.get('copy') and len(e.get('args', [])) == 1 and depth < 3:
+            return is_call(e['args'][0], depth + 1)         # copy/move construction of the call's result
+        if e is not None and e['k'] == 'binop' and e['op'] == '=' and depth < 3:
+            return is_call(e['r'], depth + 1)               # `auto a = b = call()`: the value of the inner assignment
         return e is not None and e['k'] == 'call' and re.search(rx, strip_targs(e.get('fn') or ''))
     for e in f.exprs:
         if e['k'] == 'declstmt':
@@ -595,5 +599,9 @@ def locals_assigned_from_call(f, rx):
         elif e['k'] == 'binop' and e['op'] == '=':
             l = f.x(f.skip(e['l']))
             if l is not None and l['k'] == 'ref' and is_call(e['r']):
+                out.add(f.decls[l['decl']]['name'])
+        elif e['k'] == 'call' and e.get('op') == '=' and e.get('ctype') == 'operator' and 'recv' in e and e.get('args'):
+            l = f.x(f.skip(e['recv']))             # overloaded assignment (shared_ptr, string, ...)
+            if l is not None and l['k'] == 'ref' and is_call(e['args'][0]):
                 out.add(f.decls[l['decl']]['name'])
     return out
